@@ -191,7 +191,7 @@ class MapOverlap(ArrayExpr):
         # Check for explicit dtype
         dtype = self._kwargs.get("dtype")
         if dtype is not None:
-            return np.empty((0,) * self.ndim, dtype=dtype)
+            return np.zeros((0,) * self.ndim, dtype=dtype)
 
         # Try to infer dtype by calling the function on array collections
         try:
@@ -674,7 +674,7 @@ class SlidingWindowView(Blockwise):
             new_collection(reduced_input_expr),
             chunks=chunks,
             dtype=dtype,
-            meta=np.empty((0,) * len(chunks), dtype=dtype),
+            meta=np.zeros((0,) * len(chunks), dtype=dtype),
             enforce_ndim=True,
             new_axis=window_axis if parent.keepdims else None,
             token=f"sliding-window-{reducer}",
